@@ -18,7 +18,7 @@ abbrev Key := Nat
 inductive Acct where
   | key (k : Key)
   | other (n : Nat)
-deriving DecidableEq, Repr, BEq
+deriving DecidableEq, Repr
 
 structure Cand where
   registered : Bool
@@ -180,24 +180,33 @@ inductive Res where
   | haltTrue | haltFalse | halt | fault | skip
 deriving DecidableEq, Repr
 
-/-- the state a transaction runs on: a private DAO layer = storage + copy-on-write caches. -/
+/-- node state between transactions: contract storage + the caches of the block's DAO layer. -/
 structure World where
   st : Storage
   c : Caches
 deriving DecidableEq, Repr
 
+/-- What one transaction works on: its private DAO layer. A transaction can read and write contract
+    storage and the Policy cache, can read the cached committee (CheckCommittee), and can only *set* the
+    NEO cache's votesChanged flag (`touched`; no native method reads the flag, native_neo.go:944,983,1128). -/
+structure TxView where
+  st : Storage
+  pol : PolicyCache
+  committee : List (Key × Int)
+  touched : Bool
+deriving DecidableEq, Repr
+
 def majority (n : Nat) : Nat := n - (n - 1) / 2
 
 /-- NEO.CheckCommittee: witness of the majority multisig of the *cached* committee. -/
-def checkCommittee (w : World) (tx : Tx) : Bool :=
+def checkCommittee (w : TxView) (tx : Tx) : Bool :=
   match tx.committee with
   | none => false
   | some (m, ks) =>
-    let cm := sortNat (w.c.neo.committee.map (·.1))
+    let cm := sortNat (w.committee.map (·.1))
     m == majority cm.length && sortNat ks == cm
 
-def setVotesChanged (w : World) : World :=
-  { w with c := { w.c with neo := { w.c.neo with votesChanged := true } } }
+def setVotesChanged (w : TxView) : TxView := { w with touched := true }
 
 /-- dropCandidateIfZero (native_neo.go:782-793) folded into the candidate update of ModifyAccountVotes. -/
 def addVotes (cands : List (Key × Cand)) (k : Key) (d : Int) (isNewVote : Bool) : Option (List (Key × Cand)) :=
@@ -209,67 +218,70 @@ def addVotes (cands : List (Key × Cand)) (k : Key) (d : Int) (isNewVote : Bool)
     else some (alPut cands k c')
 
 /-- ModifyAccountVotes (native_neo.go:1126-1146): always marks votesChanged. -/
-def modifyAccountVotes (w : World) (voteTo : Option Key) (d : Int) (isNewVote : Bool) : Option World :=
+def modifyAccountVotes (w : TxView) (voteTo : Option Key) (d : Int) (isNewVote : Bool) : Option TxView :=
   let w := setVotesChanged w
   match voteTo with
   | none => some w
   | some k => (addVotes w.st.cands k d isNewVote).map fun cs => { w with st := { w.st with cands := cs } }
 
+def belowRequired (bal : Int) : Option Int → Bool
+  | some r => decide (bal < r)
+  | none => false
+
+/-- NEO.increaseBalance on an existing (or fresh, `b.balance = 0`) record, amount `d ≠ 0`
+    (native_neo.go:593-632): votes of the voted candidate, voters count, balance; a zero balance deletes
+    the record. -/
+def applyDelta (w : TxView) (acc : Acct) (b : Bal) (d : Int) : Option TxView :=
+  (modifyAccountVotes w b.voteTo d false).map fun w =>
+    let vc := if b.voteTo.isSome then w.st.votersCount + d else w.st.votersCount
+    let nb := b.balance + d
+    let accs := if nb == 0 then alErase w.st.accounts acc else alPut w.st.accounts acc { b with balance := nb }
+    { w with st := { w.st with accounts := accs, votersCount := vc } }
+
 /-- nep17 updateAccBalance + NEO.increaseBalance for `acc` by `d`; `required` = balance check of a
     zero-amount debit. `none` = error ("insufficient funds" / "invalid validator"). -/
-def incBalance (w : World) (acc : Acct) (d : Int) (required : Option Int) : Option World :=
+def incBalance (w : TxView) (acc : Acct) (d : Int) (required : Option Int) : Option TxView :=
   match alGet w.st.accounts acc with
   | none =>
     if d < 0 then none
     else if (required.getD 0) > 0 then none
     else if d == 0 then some w
-    else
-      -- new empty account
-      (modifyAccountVotes w none d false).map fun w =>
-        { w with st := { w.st with accounts := alPut w.st.accounts acc { balance := d, voteTo := none } } }
+    else applyDelta w acc { balance := 0, voteTo := none } d
   | some b =>
-    if (d < 0 && b.balance < -d) || (d == 0 && (match required with | some r => decide (b.balance < r) | none => false)) then none
+    if (d < 0 && b.balance < -d) || (d == 0 && belowRequired b.balance required) then none
     else if d == 0 then some w
-    else
-      match modifyAccountVotes w b.voteTo d false with
-      | none => none
-      | some w =>
-        let vc := if b.voteTo.isSome then w.st.votersCount + d else w.st.votersCount
-        let nb := b.balance + d
-        let accs := if nb == 0 then alErase w.st.accounts acc else alPut w.st.accounts acc { b with balance := nb }
-        some { w with st := { w.st with accounts := accs, votersCount := vc } }
+    else applyDelta w acc b d
+
+/-- the vote target must be a registered candidate (native_neo.go:1056-1068). -/
+def candOk (cands : List (Key × Cand)) : Option Key → Bool
+  | none => true
+  | some k => match alGet cands k with
+    | none => false
+    | some c => c.registered
+
+/-- modifyVoterTurnout when the account starts / stops voting (native_neo.go:1070-1078). -/
+def turnoutAfterVote (vc : Int) (b : Bal) (to : Option Key) : Int :=
+  if b.voteTo.isNone != to.isNone then (if to.isNone then vc - b.balance else vc + b.balance) else vc
 
 /-- voteInternalUnchecked (native_neo.go:1044-1115). `none` = error before/without completing. -/
-def voteInternal (w : World) (acc : Acct) (to : Option Key) : Option World :=
-  match alGet w.st.accounts acc with
-  | none => none
-  | some b =>
-    let okCand := match to with
-      | none => true
-      | some k => match alGet w.st.cands k with
-        | none => false
-        | some c => c.registered
-    if !okCand then none else
-    let vc := if b.voteTo.isNone != to.isNone then
-        (if to.isNone then w.st.votersCount - b.balance else w.st.votersCount + b.balance) else w.st.votersCount
-    let w := { w with st := { w.st with votersCount := vc } }
-    match modifyAccountVotes w b.voteTo (-b.balance) false with
-    | none => none
-    | some w =>
-      match modifyAccountVotes w to b.balance true with
-      | none => none
-      | some w => some { w with st := { w.st with accounts := alPut w.st.accounts acc { b with voteTo := to } } }
+def voteInternal (w : TxView) (acc : Acct) (to : Option Key) : Option TxView :=
+  (alGet w.st.accounts acc).bind fun b =>
+    if !candOk w.st.cands to then none else
+    (modifyAccountVotes { w with st := { w.st with votersCount := turnoutAfterVote w.st.votersCount b to } } b.voteTo (-b.balance) false).bind fun w1 =>
+    (modifyAccountVotes w1 to b.balance true).map fun w2 =>
+      { w2 with st := { w2.st with accounts := alPut w2.st.accounts acc { b with voteTo := to } } }
+
+/-- NEO.RevokeVotes (native_neo.go:1036-1041); an error is ignored by the caller (policy.go:694-698). -/
+def revokeVotes (w : TxView) (a : Acct) : TxView := (voteInternal w a none).getD w
 
 /-- Policy.BlockAccountInternal (policy.go:668-703) with the Faun vote revocation. -/
-def blockInternal (w : World) (a : Acct) : World × Bool :=
-  if w.c.policy.blocked.contains a then (w, false) else
-  let w := match voteInternal w a none with
-    | some w' => w'
-    | none => w
+def blockInternal (w : TxView) (a : Acct) : TxView × Bool :=
+  if w.pol.blocked.contains a then (w, false) else
+  let w := revokeVotes w a
   ({ w with st := { w.st with blocked := a :: w.st.blocked },
-            c := { w.c with policy := { w.c.policy with blocked := a :: w.c.policy.blocked } } }, true)
+            pol := { w.pol with blocked := a :: w.pol.blocked } }, true)
 
-def execOp (w : World) (tx : Tx) : World × Res :=
+def execOp (w : TxView) (tx : Tx) : TxView × Res :=
   match tx.op with
   | .neoTransfer src dst amount =>
     if amount < 0 then (w, .fault)
@@ -306,15 +318,15 @@ def execOp (w : World) (tx : Tx) : World × Res :=
   | .setFeePerByte v =>
     if v < 0 || v > 100000000 then (w, .fault)
     else if !checkCommittee w tx then (w, .fault)
-    else ({ st := { w.st with feePerByte := v }, c := { w.c with policy := { w.c.policy with feePerByte := v } } }, .halt)
+    else ({ w with st := { w.st with feePerByte := v }, pol := { w.pol with feePerByte := v } }, .halt)
   | .setExecFeeFactor v =>
     if v ≤ 0 || v > 1000000 then (w, .fault)
     else if !checkCommittee w tx then (w, .fault)
-    else ({ st := { w.st with execFeeFactor := v }, c := { w.c with policy := { w.c.policy with execFeeFactor := v } } }, .halt)
+    else ({ w with st := { w.st with execFeeFactor := v }, pol := { w.pol with execFeeFactor := v } }, .halt)
   | .setStoragePrice v =>
     if v ≤ 0 || v > 10000000 then (w, .fault)
     else if !checkCommittee w tx then (w, .fault)
-    else ({ st := { w.st with storagePrice := v }, c := { w.c with policy := { w.c.policy with storagePrice := v } } }, .halt)
+    else ({ w with st := { w.st with storagePrice := v }, pol := { w.pol with storagePrice := v } }, .halt)
   | .block a =>
     if !checkCommittee w tx then (w, .fault)
     else
@@ -322,9 +334,9 @@ def execOp (w : World) (tx : Tx) : World × Res :=
       (w', if r then .haltTrue else .haltFalse)
   | .unblock a =>
     if !checkCommittee w tx then (w, .fault)
-    else if !w.c.policy.blocked.contains a then (w, .haltFalse)
+    else if !w.pol.blocked.contains a then (w, .haltFalse)
     else ({ w with st := { w.st with blocked := w.st.blocked.filter (· != a) },
-                   c := { w.c with policy := { w.c.policy with blocked := w.c.policy.blocked.filter (· != a) } } }, .haltTrue)
+                   pol := { w.pol with blocked := w.pol.blocked.filter (· != a) } }, .haltTrue)
   | .deploy c =>
     if w.st.deployed.contains c then (w, .fault)
     else ({ w with st := { w.st with deployed := c :: w.st.deployed } }, .halt)
@@ -336,13 +348,17 @@ def execOp (w : World) (tx : Tx) : World × Res :=
   | .fault => (w, .fault)
   | .other => (w, .skip)
 
-/-- one transaction in its own private layer: merged only on HALT (blockchain.go:2060-2090). -/
+def viewOf (w : World) : TxView :=
+  { st := w.st, pol := w.c.policy, committee := w.c.neo.committee, touched := false }
+
+/-- one transaction in its own private layer: storage and caches are merged only on HALT
+    (blockchain.go:2060-2090, dao.go cache copy-on-write). -/
 def execTx (w : World) (tx : Tx) : World × Res :=
   if tx.oog then (w, .fault) else
-  let (w', r) := execOp w tx
+  let (v, r) := execOp (viewOf w) tx
   match r with
   | .fault => (w, .fault)
-  | _ => (w', r)
+  | _ => ({ st := v.st, c := { policy := v.pol, neo := { w.c.neo with votesChanged := w.c.neo.votesChanged || v.touched } } }, r)
 
 def execTxs (w : World) : List Tx → World × List Res
   | [] => (w, [])
